@@ -71,12 +71,15 @@ def reportHeartbeat (cfg : FDConfig) (fd : FD) (i : Id) (now : Nat) : FD :=
   let w := (fd.window i).getD {}
   { fd with windows := AL.insert Id.lt i (w.report cfg now) fd.windows }
 
+/-- `phi(id) ≤ threshold`, `None ↦ false`. -/
+def isAlive (cfg : FDConfig) (fd : FD) (i : Id) (now : Nat) : Bool :=
+  match fd.window i with
+  | some w => w.alive cfg now
+  | none => false
+
 /-- `update_node_liveness`. -/
 def updateNodeLiveness (cfg : FDConfig) (fd : FD) (i : Id) (now : Nat) : FD :=
-  let alive := match fd.window i with
-    | some w => w.alive cfg now
-    | none => false
-  if alive then
+  if fd.isAlive cfg i now = true then
     { fd with live := insertId i fd.live, dead := AL.erase i fd.dead }
   else
     { fd with
